@@ -96,8 +96,10 @@ func (x *proxyParser) ev(e Event) Event {
 
 func (x *proxyParser) tick() {
 	x.innerCalls++
-	if x.innerCalls > 1<<16 {
-		panic(livelock{in: "wrapper made 65536 inner calls inside one Parse"})
+	// a wrapper that makes progress needs a handful of inner calls per
+	// Parse (Parse, Shrink, ReadFrom, Parse)
+	if x.innerCalls > 300 {
+		panic(livelock{in: "wrapper made more than 300 inner calls inside one Parse"})
 	}
 }
 
